@@ -157,6 +157,17 @@ def frame_stacks(fn):
     return a["$A"], b["$B"]
 
 
+def _downs_in_order(arm):
+    """names queued as Action::Down(..), in order - also when written as `for a in [x, y, z] { todo.push(Action::Down(a)) }`"""
+    from . import C12 as C12_
+
+    try:
+        d, _p = C12_._pushes_pops(arm["body"])
+        return [str(x) for x in d]
+    except Exception:  # noqa: BLE001
+        return None
+
+
 def r3_frames(rule, root=None):
     fn = _import(root)
     axes_n, affine_n = frame_stacks(fn)
@@ -233,7 +244,7 @@ def r3_frames(rule, root=None):
         xs, ys, zs = names.get("x"), names.get("y"), names.get("z")
         if direct:
             rule.bad("frames|remap-axes|direct", "the RemapAxes arm pushes a value straight onto the value stack (`%s`): the Up step pops z, y, x in that order, and a value pushed now lies below every deferred argument" % str(A.ftxt(direct[0]))[:60], A.where(fn, direct[0]))
-        elif xs and pushes[-3:] == ["Action::Down(%s)" % xs, "Action::Down(%s)" % ys, "Action::Down(%s)" % zs] and pushes[:1] == ["Action::Up(t)"]:
+        elif xs and pushes[:1] == ["Action::Up(t)"] and (pushes[-3:] == ["Action::Down(%s)" % xs, "Action::Down(%s)" % ys, "Action::Down(%s)" % zs] or _downs_in_order(arm) == [xs, ys, zs]):
             rule.ok("RemapAxes defers x, y, z through the work list in the order the Up step pops them", file=CTX, line=arm["ln"])
         elif xs and "Action::Up(t)" in pushes:
             rule.bad("frames|remap-axes|order", "the RemapAxes arm queues %s; it must queue Up(t) and then Down(x), Down(y), Down(z)" % pushes, A.where(fn, arm))
